@@ -43,6 +43,16 @@ let () =
         if not (registered KEncr (bytes_of_string e)) then "N" else begin
           let p = enc_dump (js ("{\"enc\":" ^ q e ^ "}")) in
           ar (decide_deccek (js ("{\"protected\":" ^ q p ^ "}")) (with_alg "\"kty\":\"oct\"" b)) end
+    | "deccekU" | "deccekPU" ->
+        (* enc carried by the shared unprotected header only (with or without an unrelated protected header) *)
+        let e = f.(2) and b = f.(3) in
+        if not (registered KEncr (bytes_of_string e)) then "N" else begin
+          let p = if f.(1) = "deccekPU" then "\"protected\":" ^ q (enc_dump (js "{\"typ\":\"x\"}")) ^ "," else "" in
+          ar (decide_deccek (js ("{" ^ p ^ "\"unprotected\":{\"enc\":" ^ q e ^ "}}")) (with_alg "\"kty\":\"oct\"" b)) end
+    | "decjwkU" ->
+        let a = f.(2) and e = f.(3) and b = f.(4) in
+        if not (registered KWrap (bytes_of_string a) && registered KEncr (bytes_of_string e)) then "N" else
+          ar (decide_decjwk (js ("{\"unprotected\":{\"enc\":" ^ q e ^ "},\"header\":{\"alg\":" ^ q a ^ "},\"encrypted_key\":\"AA\"}")) (with_alg "\"kty\":\"oct\"" b))
     | "exc" ->
         ar (decide_exc (with_alg "\"kty\":\"EC\"" f.(2)) (with_alg "\"kty\":\"EC\"" f.(3)))
     | _ -> "?")
